@@ -3,7 +3,8 @@
 (* C05 on observations of the REAL code (batch idiom, DESIGN.md A.2).      *)
 (* One observation = the flat description of one GIR file                  *)
 (* (harness/c05proj.py: a structural flattening of the XML, no judging):   *)
-(*   [id, ns, avail, partial, defs, uses, idx, pairs, marks, model]        *)
+(*   [id, ns, avail, partial, inferred, defs, uses, idx, pairs, marks,     *)
+(*    model]                                                               *)
 (* Verdict: Rejections (tla/IntrospectProp.tla: Closed) evaluated by TLC.  *)
 (*                                                                         *)
 (* model = [nodes, order, names]: the abstract case the GIR was scanned    *)
@@ -19,7 +20,8 @@ EXTENDS IntrospectWalks, Json, IOUtils, SequencesExt
 Obs == JsonDeserialize(IOEnv.TRACE_FILE)
 
 Expected(o, stf, n) ==
-    LET g == o.model.nodes  nm == o.model.names[n]  m == Marked(stf, n) IN
+    LET g == o.model.nodes  nm == o.model.names[n]
+        m == Marked(stf, n) \/ (g[n].host # 0 /\ Marked(stf, g[n].host)) IN
     (IF stf.dropped[n] THEN {} ELSE {<<nm, m>>})
     \cup (IF g[n].kind = "record" THEN {<<nm \o "/field:f", m \/ ~stf.fintro[n]>>} ELSE {})
     \cup (IF g[n].kind = "class"
